@@ -658,6 +658,9 @@ def load_ragged_time_series(
     else:
         start_row = 0
     with _open(filename, mode="r") as input_file:
+        if header:
+            # the first row is the header: skip it
+            next(input_file, None)
         for row, line in enumerate(input_file, start_row):
             # If this is a comment line, skip it
             if comment is not None and commenter.match(line):
